@@ -577,6 +577,9 @@ fn typed_decoders(dm: &result::DeserializedMetadataAndRawRows, cap: usize) {
     try_t!((Option<Vec<Option<String>>>,));
     try_t!((Option<HashMap<i32, Option<String>>>,));
     try_t!((Option<(Option<i32>, Option<String>)>,));
+    try_t!((Option<Vec<Vec<i32>>>,));
+    try_t!((Option<Vec<Vec<Vec<i32>>>>,));
+    try_t!((Option<Vec<Vec<Vec<Vec<i64>>>>>,));
     try_t!((Option<CqlValue>,));
     try_t!((Option<CqlValue>, Option<CqlValue>));
     try_t!((Option<CqlValue>, Option<CqlValue>, Option<CqlValue>));
